@@ -40,6 +40,14 @@ var corpusDocs = []string{
 	`{ab{... on Named{f: name} ... on Alpha{f: nick}}}`,
 	`{named{f: name ... on Named{f: nick}}}`,
 	`{named{f: nick(n:1) ... on Alpha{f: nick(n:1)}}}`,
+	// nested list types: item-to-list coercion at the top only
+	`{lists(g1:[[1],[2,null],null] g2:[[1],[]] g3:[[1],null] g4:[[1]] g5:[[1]] g6:[[[1]]] g7:[[[1,null]]] g8:[[1]])}`,
+	`{lists(g1:1 g2:2 g3:3 g4:4 g5:5 g6:6 g7:7 g8:8)}`,
+	`{lists(g5:[[1]] g1:[1,2])}`, `{lists(g5:[[1]] g1:[[1],2])}`, `{lists(g5:[[1]] g2:[1,2])}`, `{lists(g5:[[1]] g2:[[1],2])}`, `{lists(g5:[[1]] g8:[1,2])}`, `{lists(g5:[[1]] g8:[[1],2])}`,
+	`{lists(g5:[[1]] g4:[3])}`, `{lists(g5:[[1]] g6:[[1]])}`, `{lists(g5:[[1]] g7:[[1]])}`, `{lists(g5:[[1]] g7:[[[1]],[2]])}`, `{lists(g5:[[1]] g2:[null])}`, `{lists(g5:[[1]] g3:[[null]])}`,
+	`query($a:[Int],$b:[Int]!,$c:Int){lists(g5:[[1]] g1:[$a,$b] g2:[$b] g6:[[$a]])}`,
+	`query($a:[Int]){lists(g5:[[1]] g2:[$a])}`,
+	`query($c:Int){lists(g5:[[1]] g1:[$c])}`,
 	// a variable-using fragment shared by two operations
 	`query A($x:Int){...f} query B($x:Int){...f} fragment f on Query {arg(x:$x)}`,
 	`query A($x:Int){...f} query B{...f} fragment f on Query {arg(x:$x)}`,
